@@ -33,7 +33,7 @@ RULE = ('a case = one generated program (as C05/C06, with comments and blank lin
         'Non-trivial: >= 8 results checked; distinct by program text and encoding.')
 ASSUMPTIONS = ['patch(1) (GNU patch --binary) and the harness\'s strict applier define "well-formed unified diff"',
                'CR-only files are checked with the own applier only (patch(1) splits on LF)']
-SIZES = {'quick': (96, 24), 'thorough': (1500, 60)}
+SIZES = {'quick': (96, 24), 'thorough': (800, 60)}
 TIMEOUT = {'quick': 1500, 'thorough': 6 * 3600}
 FORMATS = ['lf', 'crlf', 'nofinal', 'crlf_nofinal', 'unicode', 'cr', 'lf', 'crlf']
 FRESH = 'zq_fresh_name'
